@@ -126,7 +126,7 @@ def closing : HPc → Option Req
 @[simp] theorem registered_done : registered .done = none := rfl
 @[simp] theorem registered_firstPc (r) : registered (firstPc r) = none := by cases r <;> rfl
 @[simp] theorem registered_afterSnap (s l) : registered (afterSnap s l) = some s := by cases l <;> rfl
-@[simp] theorem registered_afterTable (cfg r) : registered (afterTable cfg r) = actScope r := by
+@[simp] theorem registered_afterTable (cfg c r) : registered (afterTable cfg c r) = actScope r := by
   cases r <;> simp [afterTable, actScope]
 
 @[simp] theorem closing_idle : closing .idle = none := rfl
@@ -141,25 +141,23 @@ def closing : HPc → Option Req
 @[simp] theorem closing_done : closing .done = none := rfl
 @[simp] theorem closing_firstPc (r) : closing (firstPc r) = some r := by cases r <;> rfl
 @[simp] theorem closing_afterSnap (s l) : closing (afterSnap s l) = none := by cases l <;> rfl
-@[simp] theorem closing_afterTable (cfg r) : closing (afterTable cfg r) = none := by
+@[simp] theorem closing_afterTable (cfg c r) : closing (afterTable cfg c r) = none := by
   cases r <;> simp [afterTable]
 
 theorem tableHas_tableWrite_other (σ : State) (c c' : Conn) (r : Req) (a : Scope) (h : c' ≠ c) :
     tableHas (tableWrite σ c r) c' a = tableHas σ c' a := by
-  cases r <;> (try rename_i s; cases s) <;> cases a <;>
-    simp [tableWrite, register, unregister, resetConn, tableHas, h]
+  exact tableHas_write_other σ c c' r a h
 
 theorem tableHas_tableWrite_keep (σ : State) (c : Conn) (r : Req) (a : Scope) (he : ends r a = false)
     (h : tableHas σ c a = true) : tableHas (tableWrite σ c r) c a = true := by
-  cases r <;> (try rename_i s; cases s) <;> cases a <;>
-    simp_all [tableWrite, register, unregister, tableHas, ends, cancels] <;> grind
+  rw [tableHas_tableWrite]; simp [he, h]
 
 theorem tableHas_tableWrite_reg (σ : State) (c : Conn) (r : Req) (s : Scope) (h : actScope r = some s) :
     tableHas (tableWrite σ c r) c s = true := by
   cases r <;> simp only [actScope, Option.some.injEq, reduceCtorEq] at h
   subst h
   rename_i s
-  cases s <;> simp [tableWrite, register, tableHas]
+  simp [tableHas_tableWrite, ends]
 
 /-! ## the obligation of an updater, by its program counter -/
 
@@ -387,6 +385,11 @@ theorem lossInv_stepH (cfg : Cfg) (σ σ' : State) (c : Conn) (hI : LossInv cfg 
     | exact lossInv_event cfg σ _ c _ _ hI rfl rfl rfl rfl (by intro c' hc; simp [obsConn] <;> exact fun h => hc h.symm)
         (by intro c' a; cases a <;> rfl) (by intro s h; cases h <;> simp_all) (by simp [*]; done) (by simp [*]; done)
     | exact lossInv_write cfg σ _ c _ _ hI (by simp) (by simp) rfl (by simp [*]; rfl) (by intro c' a; cases a <;> rfl) (by simp) (by simp)
+    | (rename_i heq hr
+       subst hr
+       exact lossInv_event cfg σ _ c (.reply c .disconnect (!cfg.logFails c)) _ hI rfl rfl rfl rfl
+         (by intro c' hc; simp [obsConn]; exact fun h => hc h.symm)
+         (by intro c' a; cases a <;> rfl) (by intro s h; simp at h) (by simp [afterTable, heq, actScope]) (by simp [afterTable]))
 
 /-! ## updater steps -/
 
